@@ -40,9 +40,10 @@ def run(ctx):
     if len(scns) < 1000:
         raise ToolError("FailMark produced only %d scenarios" % len(scns))
     res = ctx.run_harness("c13", scns, timeout=3000)
-    per = 6 if thorough else 3
-    if len(res) != len(scns) * per:
-        raise ToolError("harness answered %d of %d runs; stderr:\n%s" % (len(res), len(scns) * per, ctx.last_stderr[-3000:]))
+    # eight call variants; quick: every second one, rotating with the scenario, and always the network commands-from-file one
+    want = len(scns) * 8 if thorough else sum(4 if i % 2 == 0 else 5 for i in range(len(scns)))
+    if len(res) != want:
+        raise ToolError("harness answered %d of %d runs; stderr:\n%s" % (len(res), want, ctx.last_stderr[-3000:]))
     for rr in res:
         ctx.count()
         if rr.get("nontrivial"):
